@@ -74,8 +74,19 @@ def _package(env, tag, package):
         yield (r for r in res)
 
 
+def _package_eager(env, tag, package):
+    """Asks for every resource before reading a row of any (as a step that reorders or pairs up resources does), then
+    hands them on in the original order."""
+    _mark(env, tag)
+    yield package.pkg
+    streams = list(package)
+    for res in streams:
+        yield (r for r in res)
+
+
 ROLE_IMPL = {'row_inplace': (_row_inplace, 'row'), 'row_new': (_row_new, 'row'), 'rows': (_rows, 'rows'),
-             'package': (_package, 'package'), 'rows_peek': (_rows_peek, 'rows'), 'rows_empty': (_rows_empty, 'rows')}
+             'package': (_package, 'package'), 'rows_peek': (_rows_peek, 'rows'), 'rows_empty': (_rows_empty, 'rows'),
+             'package_eager': (_package_eager, 'package')}
 IDENTITY_LINKS = {'user:rows_peek:%s' % k for k in ('function', 'lambda', 'method', 'partial', 'object')}
 EMPTYING_LINKS = {'user:rows_empty:%s' % k for k in ('function', 'lambda', 'method', 'partial', 'object')}
 KINDS = ['function', 'lambda', 'method', 'partial', 'object']
@@ -85,7 +96,7 @@ def make_user_link(env, role, kind, tag):
     impl, param = ROLE_IMPL[role]
     ns = {'impl': impl, 'env': env, 'tag': tag, 'functools': functools}
     if kind == 'function':
-        if role in ('rows', 'package'):
+        if role in ('rows', 'package', 'package_eager'):
             src = 'def f({p}):\n    yield from impl(env, tag, {p})\n'
         else:
             src = 'def f({p}):\n    return impl(env, tag, {p})\n'
@@ -278,7 +289,8 @@ BUILTINS = {
     'sources': {'op': 'sources2'},
     'parallelize1': S('parallelize', {'$fn': 'e1_par_rowfunc'}, 1),
 }
-USER = {'user:%s:%s' % (r, k): {'op': 'user', 'role': r, 'kind': k} for r in ROLE_IMPL for k in KINDS}
+USER = {'user:%s:%s' % (r, k): {'op': 'user', 'role': r, 'kind': k} for r in ROLE_IMPL
+        for k in (KINDS if r != 'package_eager' else ['function'])}
 NONLINKS = {'nonlink:%s' % w: {'op': 'nonlink', 'what': w}
             for w in ('none', 'int', 'object', 'callable2', 'callable0', 'callable-badname', 'partial2', 'package-fewer-streams')}
 SYMS = {}
@@ -592,7 +604,8 @@ def stepwise(init, path, memo=None):
 
 def lazy_steps(init, path):
     src = {'op': 'from_state', 'state': init}
-    if any(sym in EMPTYING_LINKS for sym in path):
+    if any(sym in EMPTYING_LINKS or sym.startswith('user:package_eager') for sym in path):
+        # (the same goes for a link that asks for every resource before reading any)
         # a user link that returns without reading its input breaks the drain discipline on purpose: over the shared
         # sequential cursor the *harness source* would then hand the unread rows to the next resource (an artefact of
         # the source, not of the library), so such paths run over independent per-resource iterators
